@@ -337,11 +337,11 @@ example :
 /-- the reader-side inverse of the toy cipher: strip the password, flip the bits back, compare the check
 byte (position 11 of the 12-byte header), drop the header -/
 def rext2 : Ext :=
-  ⟨fun m b => if m = .stored then .ok b else .ok b.dropLast,
-   fun pw check raw =>
-     let dec := (raw.take (raw.length - pw.length)).map (· ^^^ 0x55)
-     if dec[11]? == some check then .ok (some (dec.drop 12)) else .ok none,
-   fun _ _ _ _ => .ok none⟩
+  { decode := fun m b => if m = .stored then .ok b else .ok b.dropLast
+    zipCrypto := fun pw check raw =>
+      let dec := (raw.take (raw.length - pw.length)).map (· ^^^ 0x55)
+      if dec[11]? == some check then .ok (some (dec.drop 12)) else .ok none
+    aes := fun _ _ _ _ => .ok none }
 
 /-- the origins of `scriptY`: a ZipCrypto entry with its password and plaintext, an entry whose extra data
 are in both headers, an encrypted directory; the hypotheses of `roundtrip_entry_zc_full` (cipher and
